@@ -242,6 +242,13 @@ class Harness:
 
 
 def z3val(mv):
+    try:
+        return _z3val(mv)
+    except Exception:
+        return str(mv)
+
+
+def _z3val(mv):
     if z3.is_rational_value(mv):
         fr = Fraction(mv.numerator_as_long(), mv.denominator_as_long())
         return float(fr)
